@@ -2,12 +2,12 @@
    Statements only; proofs are in ProofsKeys.v. *)
 From Ucfg Require Import Base ParseInt Consts Field Tree PathOps Merge OTree Ops Keys ProofsTree ProofsKeys.
 
-(* When every stored field name equals the actual key / index ([names_ok]) and every node is
-   a dictionary or a list ([pure], no references), FlattenedKeys (computed from the STORED
+(* When every stored field name equals the actual key / index ([names_ok]) and the tree holds no
+   references ([static]; a node may hold named settings and a list part at once), FlattenedKeys (computed from the STORED
    names, as the implementation does) returns exactly the root-relative POSITIONAL paths of
    the non-nil primitive settings - for every tree, of any depth. *)
 Theorem c15_flattened_keys_are_leaf_paths : forall sep v pp,
-  names_ok v = true -> pure v = true -> flat_keys sep pp v = Ok (leaf_paths sep pp v).
+  names_ok v = true -> static v = true -> flat_keys sep pp v = Ok (leaf_paths sep pp v).
 Proof. exact flat_keys_leaf_paths. Qed.
 Print Assumptions c15_flattened_keys_are_leaf_paths.
 
